@@ -60,14 +60,28 @@ def exact_chars(a):
     return actual(a)
 
 
+_CUR = {'sig': None}
+
+
 def verbatim_flags(n):
+    """which argument slots hold verbatim material: from the signature table the document was
+    written with (not from attributes of the library's objects)"""
     nad = n.nodeargd
     if nad is None:
         return []
-    specs = list(getattr(nad, 'arguments_spec_list', None) or [])
-    legacy = type(nad).__name__ in ('ParsedVerbatimArgs',)
-    return [legacy or (i < len(specs) and str(getattr(specs[i], 'parser', None)).startswith('v'))
-            for i in range(len(nad.argnlist or []))]
+    nargs = len(nad.argnlist or [])
+    sig = docgrammar.SIGS.get(_CUR['sig']) or {}
+    if kind(n) == 'macro':
+        if n.macroname == 'verb' and sig.get('verb'):
+            return [True] * nargs
+        slots = (sig.get('macros') or {}).get(n.macroname) or []
+    elif kind(n) == 'environment':
+        if n.environmentname == 'verbatim' and sig.get('verb'):
+            return [True] * nargs
+        slots = ((sig.get('envs') or {}).get(n.environmentname) or ([], None))[0]
+    else:
+        slots = []
+    return [i < len(slots) and slots[i].get('k') == 'v' for i in range(nargs)]
 
 
 def actual_arg(a, exact=False):
@@ -231,8 +245,42 @@ def attributed_to_nested_brackets(signame, ast):
     return structure_ok(signame, variant)
 
 
+def normalise_verbatim(struct):
+    """\\verb / verbatim of the default context: the text may be delivered as the argument or
+    (verbatim environment) as the body, bare or wrapped in a group with the delimiters -- every
+    shape is reduced to the text"""
+    out = []
+    for e in struct:
+        if isinstance(e, list) and e and e[0] == 'macro' and e[1] == 'verb':
+            e = ['macro', 'verb', [['vchars', _vtext(e[2])]]]
+        elif isinstance(e, list) and e and e[0] == 'env' and e[1] == 'verbatim':
+            e = ['env', 'verbatim', [['vchars', _vtext(e[2]) + _vtext(e[3])]], []]
+        elif isinstance(e, list) and e and e[0] in ('group', 'math', 'env', 'macro', 'list'):
+            e = [normalise_verbatim(x) if isinstance(x, list) and x and isinstance(x[0], list)
+                 else x for x in e]
+        out.append(e)
+    return out
+
+
+def _vtext(x):
+    if x is None:
+        return ''
+    if isinstance(x, list) and x and isinstance(x[0], str):
+        if x[0] in ('vchars', 'chars'):
+            return x[1]
+        if x[0] == 'group':
+            return _vtext(x[3])
+        if x[0] == 'list':
+            return _vtext(x[1])
+        return ''
+    if isinstance(x, list):
+        return ''.join(_vtext(y) for y in x)
+    return ''
+
+
 def check_doc(signame, ast, res, case=None):
     res.case()
+    _CUR['sig'] = signame
     src = docgrammar.render(ast)
     ctxname = docgrammar.CTX_OF[signame]
     want = docgrammar.expected_structure(ast, None, par_special=(ctxname == 'default'))
@@ -257,6 +305,8 @@ def check_doc(signame, ast, res, case=None):
         res.fail(exc_key(e), exc_detail(e) + ' on %r' % src, case)
         return
     got = actual_list(nl.nodelist)
+    if docgrammar.SIGS[signame].get('verb'):
+        got, want = normalise_verbatim(got), normalise_verbatim(want)
     if got != want:
         d = first_diff(got, want)
         where = d[0] if d else '?'
